@@ -80,6 +80,26 @@ func (d *Dialer) DialContext(ctx vctx.Context, network, address string) (net.Con
 	return DialHook(ctx, network, address)
 }
 
+// Dial goes to the scenario's dial hook.
+func Dial(network, address string) (net.Conn, error) {
+	return (&Dialer{}).DialContext(vctx.Background(), network, address)
+}
+
+// DialTimeout goes to the scenario's dial hook with a timeout context.
+func DialTimeout(network, address string, timeout time.Duration) (net.Conn, error) {
+	c, cancel := vctx.WithTimeout(vctx.Background(), timeout)
+	defer cancel()
+	return (&Dialer{}).DialContext(c, network, address)
+}
+
+// Dial goes to the scenario's dial hook.
+func (d *Dialer) Dial(network, address string) (net.Conn, error) {
+	if d.Timeout > 0 {
+		return DialTimeout(network, address, d.Timeout)
+	}
+	return Dial(network, address)
+}
+
 // ---- fakes
 
 // ErrClosed is returned by operations on a closed fake.
